@@ -6,6 +6,7 @@ CONTRACT_MODULES = [
     'contracts.substitution',
     'contracts.datatypes',
     'contracts.cfgparser',
+    'contracts.info',
 ]
 
 PROPS = {
